@@ -698,4 +698,237 @@ theorem sgm_outcome (hwf : WFp .sgm off a) {r c : Nat} (hr : r < a.rows) (hc : c
 
 end sgm
 
+
+/-! ### 8. The theorems that carry the property -/
+
+theorem okAt_of_unflagged {meth : Method} {a mid : DMap} {r c : Nat} (h : flagged (a.flag r c) = false) :
+    okAt meth a mid r c = true := by
+  unfold flagged at h
+  simp only [Bool.or_eq_false_iff] at h
+  have hk : kindOf meth a r c = .none := by simp [kindOf, h.1, h.2]
+  unfold okAt; rw [hk]; cases meth <;> rfl
+
+theorem okAt_mccnn_occl {a mid : DMap} {r c : Nat} (h : hasBit (a.flag r c) occlusion = true) :
+    okAt .mccnn a mid r c = true := by
+  have hk : kindOf .mccnn a r c = .occl := by simp [kindOf, h]
+  unfold okAt; rw [hk]
+
+/-- MAIN (per pixel).  For every well-formed map of any size, every pixel that is not in one of the
+    four "fills from nothing" situations (`okAt`) satisfies all the clauses of C14 after filling. -/
+theorem outcome (meth : Method) (off : Nat) (a : DMap) (hwf : wf meth off a = true) {r c : Nat}
+    (hr : r < a.rows) (hc : c < a.cols) (hok : okAt meth a (firstPass meth a) r c = true) :
+    Outcome meth off a (interpolate meth off a) r c := by
+  cases meth with
+  | mccnn => exact mccnn_outcome (wf_elim hwf) hr hc hok
+  | sgm => exact sgm_outcome (wf_elim hwf) hr hc hok
+
+theorem pixel_ok (meth : Method) (off : Nat) (a : DMap) (hwf : wf meth off a = true) {r c : Nat}
+    (hr : r < a.rows) (hc : c < a.cols) (hok : okAt meth a (firstPass meth a) r c = true) :
+    pixelOK meth off a (interpolate meth off a) r c = true :=
+  pixelOK_of_outcome (outcome meth off a hwf hr hc hok)
+
+/-
+  Full-strength statement (FALSE of the code, see the counterexamples of section 9):
+      ∀ meth off a, wf meth off a = true → spec meth off a (interpolate meth off a) = true
+  What is proved: the same under `noTrigger meth a = true` (no flagged pixel is in one of the four
+  situations in which the code fills from nothing).  What is missing is exactly findings F6a–F6d.
+-/
+theorem spec_holds_partial (meth : Method) (off : Nat) (a : DMap) (hwf : wf meth off a = true)
+    (hnt : noTrigger meth a = true) : spec meth off a (interpolate meth off a) = true := by
+  unfold noTrigger at hnt
+  rw [allPx_iff] at hnt
+  unfold spec
+  have h1 : (interpolate meth off a).rows = a.rows := by cases meth <;> rfl
+  have h2 : (interpolate meth off a).cols = a.cols := by cases meth <;> rfl
+  simp only [h1, h2, decide_true, Bool.true_and, List.all_eq_true, List.mem_range]
+  intro r hr c hc
+  exact pixel_ok meth off a hwf hr hc (hnt r c hr hc)
+
+/-- FULL STRENGTH: only pixels flagged 8 or 9 can change — every other pixel keeps its disparity and
+    its flags bit for bit (any well-formed map, both methods, including maps full of defect situations). -/
+theorem unflagged_untouched (meth : Method) (off : Nat) (a : DMap) (hwf : wf meth off a = true) {r c : Nat}
+    (hr : r < a.rows) (hc : c < a.cols) (hf : flagged (a.flag r c) = false) :
+    (interpolate meth off a).disp r c = a.disp r c ∧ (interpolate meth off a).flag r c = a.flag r c := by
+  cases outcome meth off a hwf hr hc (okAt_of_unflagged hf) with
+  | untouched _ hd hg _ => exact ⟨hd, hg⟩
+  | unfilled hf' => rw [hf] at hf'; cases hf'
+  | filled hf' => rw [hf] at hf'; cases hf'
+
+/-- FULL STRENGTH: mc-cnn masks the border whatever the input is: border pixels end with bit 0 only. -/
+theorem border_bit0_only_mccnn (off : Nat) (a : DMap) (r c : Nat)
+    (h : (decide (off > 0) && isBorder a off r c) = true) : (mccnn off a).flag r c = leftNodataOrBorder := by
+  rw [mccnn_flag, if_pos h]
+
+/-- FULL STRENGTH: border pixels end with bit 0 only, both methods (sgm: because they are left untouched). -/
+theorem border_bit0_only (meth : Method) (off : Nat) (a : DMap) (hwf : wf meth off a = true) {r c : Nat}
+    (hr : r < a.rows) (hc : c < a.cols) (h : (decide (off > 0) && isBorder a off r c) = true) :
+    (interpolate meth off a).flag r c = leftNodataOrBorder := by
+  have hf1 := (wf_elim hwf).bc r c hr hc h
+  have hf : flagged (a.flag r c) = false := by rw [hf1]; decide
+  rw [(unflagged_untouched meth off a hwf hr hc hf).2, hf1]
+
+/-- FULL STRENGTH: an occlusion pixel under mc-cnn satisfies every clause: it takes the disparity of the
+    nearest valid pixel on its left (otherwise on its right) and bit 8 becomes bit 4, or — without any valid
+    pixel in its row — it stays as it was. -/
+theorem mccnn_occlusion_full (off : Nat) (a : DMap) (hwf : wf .mccnn off a = true) {r c : Nat}
+    (hr : r < a.rows) (hc : c < a.cols) (h8 : hasBit (a.flag r c) occlusion = true) :
+    pixelOK .mccnn off a (mccnn off a) r c = true :=
+  pixel_ok .mccnn off a hwf hr hc (okAt_mccnn_occl h8)
+
+/-- FULL STRENGTH (flags): whatever the sources, a flagged pixel is never on the border and ends with
+    bit 8 replaced by 4 / bit 9 by 5 (sgm: by 4 when it touches an occlusion), or with its flags unchanged
+    (only mc-cnn occlusions without source); in particular no other bit ever changes. -/
+theorem filled_bits (meth : Method) (off : Nat) (a : DMap) (hwf : wf meth off a = true) {r c : Nat}
+    (hr : r < a.rows) (hc : c < a.cols) (hf : flagged (a.flag r c) = true) :
+    (decide (off > 0) && isBorder a off r c) = false ∧
+    ((interpolate meth off a).flag r c = filledFlag (kindOf meth a r c) (a.flag r c)
+      ∨ ((interpolate meth off a).flag r c = a.flag r c ∧ meth = .mccnn ∧ kindOf meth a r c = .occl
+          ∧ sourceOcclMc a r c = none)) := by
+  have hw := wf_elim hwf
+  rw [flagged_eq] at hf
+  cases meth with
+  | mccnn =>
+    by_cases h8 : (a.flag r c).testBit 8 = true
+    · have hnb := not_border_of_bit hw hr hc one_testBit8 h8
+      have hk : kindOf .mccnn a r c = .occl := by simp [kindOf, hasBit_occlusion, h8]
+      obtain ⟨_, hb2⟩ := mccnn_at_occl hw hr hc h8
+      obtain ⟨hs, hn⟩ := occlMc_flagged a r c hc h8
+      refine ⟨hnb, ?_⟩
+      cases hsrc : sourceOcclMc a r c with
+      | none => exact Or.inr ⟨by show (mccnn off a).flag r c = _; rw [hb2, (hn hsrc).2], rfl, hk, rfl⟩
+      | some v =>
+        left; show (mccnn off a).flag r c = _
+        rw [hb2, (hs v hsrc).2, fill_occl h8 (hw.st8 r c hr hc h8), hk]; rfl
+    · simp only [Bool.not_eq_true] at h8
+      have h9 : (a.flag r c).testBit 9 = true := by rw [h8] at hf; simpa using hf
+      have hnb := not_border_of_bit hw hr hc one_testBit9 h9
+      have hk : kindOf .mccnn a r c = .mism := by simp [kindOf, hasBit_occlusion, hasBit_mismatch, h8, h9]
+      obtain ⟨_, ho2⟩ := occlMc_unflagged a r c h8
+      have h9' : ((occlMc a).flag r c).testBit 9 = true := by rw [ho2]; exact h9
+      refine ⟨hnb, Or.inl ?_⟩
+      show (mccnn off a).flag r c = _
+      rw [mccnn_flag, hnb]; simp only [Bool.false_eq_true, if_false]
+      rw [mismMc_flag _ r c h9', ho2, fill_mism h9 (hw.st9 r c hr hc h9), hk]; rfl
+  | sgm =>
+    have hborder : ∀ k, (leftNodataOrBorder).testBit k = false → (a.flag r c).testBit k = true →
+        (decide (off > 0) && isBorder a off r c) = false := by
+      intro k h1 hk
+      cases hb : (decide (off > 0) && isBorder a off r c)
+      · rfl
+      · have := hw.bc r c hr hc hb; rw [this, h1] at hk; cases hk
+    by_cases h8 : (a.flag r c).testBit 8 = true
+    · have h9 : (a.flag r c).testBit 9 = false := hw.one r c hr hc h8
+      have hk : kindOf .sgm a r c = .occl := by simp [kindOf, hasBit_occlusion, h8]
+      obtain ⟨_, hm2⟩ := mismSgm_unflagged a r c h9
+      have h8' : ((mismSgm a).flag r c).testBit 8 = true := by rw [hm2]; exact h8
+      refine ⟨hborder 8 one_testBit8 h8, Or.inl ?_⟩
+      show (occlSgm (mismSgm a)).flag r c = _
+      rw [occlSgm_flag _ r c h8', hm2, fill_occl h8 (hw.st8 r c hr hc h8), hk]; rfl
+    · simp only [Bool.not_eq_true] at h8
+      have h9 : (a.flag r c).testBit 9 = true := by rw [h8] at hf; simpa using hf
+      have h5 := hw.st9 r c hr hc h9
+      have h4 := hw.st9s rfl r c hr hc h9
+      refine ⟨hborder 9 one_testBit9 h9, Or.inl ?_⟩
+      cases ht : touchesOcclusion a r c
+      · have hk : kindOf .sgm a r c = .mism := by rw [kindOf_sgm_mism h8 h9, ht]; rfl
+        show (sgm a).flag r c = _
+        rw [(sgm_at_mism hw hr hc h9 ht).2, (mismSgm_fill a r c hr hc h9 ht).2, fill_mism h9 h5, hk]; rfl
+      · have hk : kindOf .sgm a r c = .mismAsOccl := by rw [kindOf_sgm_mism h8 h9, ht]; rfl
+        have hf1 : (mismSgm a).flag r c = replaceBit (a.flag r c) (2 ^ 9) (2 ^ 8) := by
+          rw [(mismSgm_touch a r c hr hc h9 ht).2, mism_to_occl h9 h8, mismatch_pow, occlusion_pow]
+        have h8' : ((mismSgm a).flag r c).testBit 8 = true := by rw [hf1, testBit_replaceBit]; simp
+        have h4' : ((mismSgm a).flag r c).testBit 4 = false := by rw [hf1, testBit_replaceBit]; simp [h4]
+        show (occlSgm (mismSgm a)).flag r c = _
+        rw [occlSgm_flag _ r c h8', fill_occl h8' h4', hf1, hk, occlusion_pow, filledOcclusion_pow,
+          replaceBit_twice _ 9 8 4 h8 (by decide)]
+        simp [filledFlag, mismatch_pow, filledOcclusion_pow]
+
+
+/-! ### 9. Counterexamples to the full-strength statement (findings F6a–F6d, F4), replayed on the
+    implementation from `corpus/C14/`, and non-vacuity of the hypotheses -/
+
+/-- a map from nested lists (cells outside read as NaN / 0) -/
+def mapOf (disp : List (List Val)) (flag : List (List Nat)) : DMap :=
+  { rows := flag.length, cols := (flag.headD []).length,
+    disp := fun r c => (disp.getD r []).getD c .nan, flag := fun r c => (flag.getD r []).getD c 0 }
+
+def okOf (cl : View → Clause) (meth : Method) (off : Nat) (a : DMap) (r c : Nat) : Bool :=
+  (cl (viewAt meth off a (interpolate meth off a) r c)).ok
+
+/-- F6a (corpus f6a_mccnn_mismatch_nan.json): a mismatch with no valid pixel on its 16 scan lines is
+    filled with NaN and marked "filled mismatch". -/
+def exF6a : DMap := mapOf [[.num 5, .num 6, .nan, .num 8, .num 9]] [[1, 1, 512, 1, 1]]
+
+theorem mccnn_mismatch_nan_counterexample :
+    wf .mccnn 0 exF6a = true
+    ∧ (mccnn 0 exF6a).disp 0 2 = .nan ∧ (mccnn 0 exF6a).flag 0 2 = 32
+    ∧ okOf cFilledFinite .mccnn 0 exF6a 0 2 = false ∧ okOf cNoSource .mccnn 0 exF6a 0 2 = false
+    ∧ spec .mccnn 0 exF6a (interpolate .mccnn 0 exF6a) = false := by decide
+
+/-- F6b (corpus f6b_mccnn_mismatch_zero.json): two scan lines of the mismatch at (0,0) run their
+    max(rows, cols) − 1 = 2 steps inside the image on invalid pixels: the 0 of `np.zeros` enters the median
+    twice, the only valid pixel in sight carries 7, the pixel is filled with 0 — outside [7, 7]. -/
+def exF6b : DMap := mapOf [[.nan, .nan, .nan], [.nan, .num 7, .nan]] [[512, 2, 2], [2, 0, 2]]
+
+theorem mccnn_mismatch_zero_counterexample :
+    wf .mccnn 0 exF6b = true
+    ∧ (mccnn 0 exF6b).disp 0 0 = .num 0 ∧ (mccnn 0 exF6b).flag 0 0 = 32
+    ∧ sourcesOf .mccnn exF6b (mccnn 0 exF6b) 0 0 = [7]
+    ∧ okOf (cFilledFromValid .mccnn) .mccnn 0 exF6b 0 0 = false
+    ∧ okOf (cFilledBetween exF6b) .mccnn 0 exF6b 0 0 = false
+    ∧ spec .mccnn 0 exF6b (interpolate .mccnn 0 exF6b) = false := by decide
+
+/-- F6c (corpus f6c_sgm_mismatch_nan.json): sgm, mismatch without valid pixel on its 8 scan lines. -/
+def exF6c : DMap :=
+  mapOf [[.num 5, .num 6, .num 7], [.num 1, .nan, .num 3], [.num 1, .num 4, .num (-1)]] [[1, 1, 1], [1, 512, 1], [1, 1, 1]]
+
+theorem sgm_mismatch_nan_counterexample :
+    wf .sgm 0 exF6c = true
+    ∧ (sgm exF6c).disp 1 1 = .nan ∧ (sgm exF6c).flag 1 1 = 32
+    ∧ okOf cFilledFinite .sgm 0 exF6c 1 1 = false ∧ okOf cNoSource .sgm 0 exF6c 1 1 = false
+    ∧ spec .sgm 0 exF6c (interpolate .sgm 0 exF6c) = false := by decide
+
+/-- F6d (corpus f6d_sgm_occlusion_nan.json): sgm, occlusion with a single valid pixel in sight:
+    `argsort(|·|)[1]` points at a NaN. -/
+def exF6d : DMap :=
+  mapOf [[.num 5, .num 6, .num 7], [.num 1, .nan, .num 3], [.num 1, .num 4, .num (-1)]] [[1, 1, 1], [0, 256, 1], [1, 1, 1]]
+
+theorem sgm_occlusion_nan_counterexample :
+    wf .sgm 0 exF6d = true
+    ∧ sourcesOf .sgm exF6d (sgm exF6d) 1 1 = [1]
+    ∧ (sgm exF6d).disp 1 1 = .nan ∧ (sgm exF6d).flag 1 1 = 16
+    ∧ okOf cFilledFinite .sgm 0 exF6d 1 1 = false
+    ∧ spec .sgm 0 exF6d (interpolate .sgm 0 exF6d) = false := by decide
+
+/-- F4 (corpus f4_stale_filled_bit.json): outside `wf` — an occlusion that already carries bit 4 (left by an
+    earlier validation step with filling) ends with bit 5 instead of bit 4: `+=` carries. -/
+def exF4 : DMap := mapOf [[.num 3, .nan, .num 4]] [[0, 272, 0]]
+
+theorem stale_filled_bit_counterexample :
+    noStaleFill .mccnn exF4 = false ∧ (mccnn 0 exF4).flag 0 1 = 32
+    ∧ filledFlag .occl 272 = 16 ∧ okOf cFilledBits .mccnn 0 exF4 0 1 = false := by decide
+
+/-- non-vacuity, mc-cnn: a well-formed map without defect situation, an occlusion filled from its left
+    (3) and a mismatch filled with the median of {4,4,4,3,3,3,5,5,5,4,4} = 4 (the filled occlusion is one of
+    the sources, three times). -/
+def exOkMc : DMap := mapOf [[.num 3, .nan, .nan, .num 5], [.num 4, .num 4, .num 4, .num 4]] [[0, 256, 512, 0], [0, 0, 0, 0]]
+
+example : wf .mccnn 0 exOkMc = true ∧ noTrigger .mccnn exOkMc = true
+    ∧ (mccnn 0 exOkMc).disp 0 1 = .num 3 ∧ (mccnn 0 exOkMc).flag 0 1 = 16
+    ∧ (mccnn 0 exOkMc).disp 0 2 = .num 4 ∧ (mccnn 0 exOkMc).flag 0 2 = 32
+    ∧ spec .mccnn 0 exOkMc (interpolate .mccnn 0 exOkMc) = true := by decide
+
+/-- non-vacuity, sgm: an occlusion (second lowest |d| of its 7 finite neighbours 6, 5, 4, 1, 2, 3, −2: the tie
+    |2| = |−2| goes to the first in direction order, 2) and a mismatch touching it (handled as an occlusion:
+    −2 among {−2, 1, 6}), offset 1 with a clean border on a 5×5 map. -/
+def exOkSgm : DMap :=
+  mapOf [[.nan, .nan, .nan, .nan, .nan], [.nan, .num 1, .num 2, .num 3, .nan], [.nan, .num 4, .nan, .num (-2), .nan],
+         [.nan, .num 5, .num 6, .nan, .nan], [.nan, .nan, .nan, .nan, .nan]]
+        [[1, 1, 1, 1, 1], [1, 0, 0, 0, 1], [1, 0, 256, 0, 1], [1, 0, 0, 512, 1], [1, 1, 1, 1, 1]]
+
+example : wf .sgm 1 exOkSgm = true ∧ noTrigger .sgm exOkSgm = true
+    ∧ (sgm exOkSgm).disp 2 2 = .num 2 ∧ (sgm exOkSgm).flag 2 2 = 16
+    ∧ (sgm exOkSgm).disp 3 3 = .num (-2) ∧ (sgm exOkSgm).flag 3 3 = 16
+    ∧ spec .sgm 1 exOkSgm (interpolate .sgm 1 exOkSgm) = true := by decide
+
 end Pandora.C14
